@@ -657,6 +657,9 @@ func (w *respWriter) Write(p []byte) (int, error) {
 	}
 	c.buf = append(c.buf, p...)
 	c.Writes = append(c.Writes, len(c.buf))
+	if len(p) > 0 {
+		s.Progress()
+	}
 	if len(c.buf)-c.flushed > 4096 {
 		c.headersSent = true
 		c.flushed = len(c.buf)
@@ -788,6 +791,7 @@ func (b *respBody) Read(p []byte) (int, error) {
 			copy(p, c.buf[c.readOff:c.readOff+n])
 			c.readOff += n
 			c.mu.Unlock()
+			s.Progress()
 			return n, nil
 		}
 		if c.serverDone {
